@@ -16,3 +16,9 @@ func (vm *VM) VerifScopeStats() map[int][2]int {
 func (vm *VM) VerifCallStackLen() int {
 	return vm.csCount
 }
+
+// VerifEvalDepth - the evaluation nesting depth the VM currently counts (0 when nothing is
+// being evaluated)
+func (vm *VM) VerifEvalDepth() int {
+	return vm.evalDepth
+}
